@@ -503,3 +503,147 @@ func (w *World) VerifyLemma(ct *Contract, pkg *types.Package) (res *FnResult) {
 	res.Paths = 1
 	return res
 }
+
+// VerifyTable evaluates closed checks over a package-level map literal, as built by the package
+// initialiser of the current tree (executed by this engine), against the constants declared in the source.
+//   total          every declared constant of the key type is a key
+//   unique         the string values are pairwise distinct
+//   nonplaceholder no value is empty or an "unknown" placeholder
+//   nonnil         every (error / pointer / interface) value is non-nil
+func (w *World) VerifyTable(ct *Contract, pkg *ssa.Package) (res *FnResult) {
+	w.cur = ct
+	e := w.newExec(nil, ct, VerifyOpts{}, map[loopKey]bool{})
+	e.RootName = "table " + strings.TrimPrefix(strings.TrimPrefix(ct.Key, "table:"), modulePath+"/")
+	res = &FnResult{Key: ct.Key, Name: e.RootName, Contract: ct, Ctx: e.C, Exec: e, Mode: "closed evaluation", Paths: 1}
+	defer func() {
+		if r := recover(); r != nil {
+			if b, ok := r.(Bail); ok {
+				res.OutOfSubset = b.Reason
+				res.Obls = nil
+				return
+			}
+			panic(r)
+		}
+	}()
+	g, ok := pkg.Members[ct.Func].(*ssa.Global)
+	if !ok {
+		e.bail("no package-level variable %s", ct.Func)
+	}
+	ir := e.ensureInit(pkg)
+	if ir == nil {
+		e.bail("package initialiser could not be evaluated")
+	}
+	if ir.mutated[g] {
+		e.bail("table %s is assigned outside the package initialiser", ct.Func)
+	}
+	root, ok := ir.heap[ir.ids[g]].(*MapVal)
+	if !ok || root.Obj == 0 {
+		e.bail("%s is not an initialised map", ct.Func)
+	}
+	ms := ir.maps[root.Obj]
+	if ms == nil || ms.Abstract {
+		e.bail("map contents of %s are not concrete", ct.Func)
+	}
+	st := &State{Heap: map[int]Val{}, Maps: map[int]*MapState{}}
+	keyset := map[string]bool{}
+	for _, k := range ms.Keys {
+		if s, okc := e.constKey(k); okc {
+			keyset[s] = true
+		}
+	}
+	for _, ck := range ct.Checks {
+		var bad []string
+		for _, word := range strings.Fields(ck.Text) {
+			switch word {
+			case "total":
+				if ct.KeyType == "" {
+					e.bail("table check `total` needs `keys <Type>`")
+				}
+				scope := pkg.Pkg.Scope()
+				n := 0
+				for _, name := range scope.Names() {
+					cst, okc := scope.Lookup(name).(*types.Const)
+					if !okc {
+						continue
+					}
+					nt, okn := cst.Type().(*types.Named)
+					if !okn || nt.Obj().Name() != ct.KeyType {
+						continue
+					}
+					n++
+					sv := (&SpecEnv{e: e, st: st, pkg: pkg.Pkg, where: e.RootName}).constObj(cst)
+					key, _ := e.constKey(sv.V)
+					if !keyset[key] {
+						bad = append(bad, "constant "+name+" is not a key")
+					}
+				}
+				if n == 0 {
+					bad = append(bad, "no constant of type "+ct.KeyType+" declared")
+				}
+			case "unique", "nonplaceholder":
+				seen := map[string]string{}
+				for i, v := range ms.Vals {
+					sv, okv := v.(*StringVal)
+					if !okv {
+						continue
+					}
+					str, okc := concreteString(sv)
+					if !okc {
+						bad = append(bad, "value is not a literal")
+						continue
+					}
+					kd, _ := e.constKey(ms.Keys[i])
+					if word == "unique" {
+						if prev, dup := seen[str]; dup {
+							bad = append(bad, fmt.Sprintf("value %q is used for keys %s and %s", str, prev, kd))
+						}
+						seen[str] = kd
+					} else {
+						low := strings.ToLower(str)
+						if str == "" || low == "unknown" || low == "undefined" || low == "todo" || low == "placeholder" {
+							bad = append(bad, fmt.Sprintf("key %s has placeholder value %q", kd, str))
+						}
+					}
+				}
+			case "nonnil":
+				for i, v := range ms.Vals {
+					kd, _ := e.constKey(ms.Keys[i])
+					switch x := v.(type) {
+					case *IfaceVal:
+						if !x.IsNil.IsFalse() {
+							bad = append(bad, "key "+kd+" maps to a possibly nil value")
+						}
+					case *PtrVal:
+						if x.Obj == 0 {
+							bad = append(bad, "key "+kd+" maps to nil")
+						}
+					}
+				}
+			default:
+				e.bail("unknown table check %q", word)
+			}
+		}
+		o := &Obligation{Fn: e.RootName, Kind: "table", Label: ck.Label, Props: ck.Props, Name: fmt.Sprintf("%s#table:%s", e.RootName, ck.Label), Goal: e.C.Bool(len(bad) == 0)}
+		if len(bad) == 0 {
+			o.Trivial, o.Status = true, "trivial"
+		} else {
+			o.Status = "sat"
+			if len(bad) > 8 {
+				bad = append(bad[:8], fmt.Sprintf("... and %d more", len(bad)-8))
+			}
+			o.Raw = strings.Join(bad, "; ")
+			o.Closed = true
+		}
+		e.Obls = append(e.Obls, o)
+	}
+	o := &Obligation{Fn: e.RootName, Kind: "table", Label: "entries", Name: e.RootName + "#table:nonempty", Goal: e.C.Bool(len(ms.Keys) > 0)}
+	if len(ms.Keys) > 0 {
+		o.Trivial, o.Status = true, "trivial"
+	} else {
+		o.Status, o.Raw, o.Closed = "sat", "table is empty", true
+	}
+	e.Obls = append(e.Obls, o)
+	res.Notes = append(res.Notes, fmt.Sprintf("%d entries evaluated from the package initialiser", len(ms.Keys)))
+	res.Obls = e.Obls
+	return res
+}
